@@ -75,6 +75,27 @@ func worker(c *fw.Ctx) *fw.Stats {
 	cn := &counters{opsByKind: map[string]int64{}}
 	seen := map[string]bool{}
 	var idx, programs int64
+	if len(c.Args) > 0 && c.Args[0] == "probe" {
+		// Probe pass (one isolated worker): does freezing a closure that
+		// captures itself terminate on this tree? If not, the process dies
+		// here and the coordinator skips the rest of that family.
+		g := selfClosure()
+		for _, outcome := range []string{"ok", "fail"} {
+			if !c.Risky(crashKey(g, outcome)) {
+				continue
+			}
+			_, f := runOne(g, outcome, cn)
+			st.Evals++
+			st.States++
+			st.Outcome(fmt.Sprintf("%s/%s/%d-nodes/%d-edges", outcome, verdictWord(f), 1, 1))
+			if f != nil {
+				st.Violate(violKey(f, g, outcome), f.what, Case{Graph: *g, Outcome: outcome, Node: f.node, Op: f.op})
+			}
+		}
+		flushCounters(st, cn)
+		return st
+	}
+	skipFamily := len(c.Args) > 0 && c.Args[0] == "family=skip"
 	for _, lv := range levels(c.Tier) {
 		cut := false
 		var total int64
@@ -95,23 +116,17 @@ func worker(c *fw.Ctx) *fw.Stats {
 				cut = true
 				return
 			}
-			risky := g.freezeOverflows()
+			if g.freezeOverflows() && (skipFamily || len(g.Nodes) == 1) {
+				// The one-node member (a closure capturing itself) was executed by
+				// the probe pass. If it killed the process there, the rest of the
+				// family (cycles of closures/defaults/tuples only) is not executed.
+				if skipFamily && len(g.Nodes) > 1 {
+					st.Count("graphs_skipped_known_crash_family."+lv.name, 1)
+				}
+				st.Count("graphs_done."+lv.name, 1)
+				return
+			}
 			for _, outcome := range []string{"ok", "fail"} {
-				if risky && len(g.Nodes) > 1 {
-					// Known crash family (Freeze of a flag-less cycle): only the
-					// smallest member (a closure capturing itself) is executed.
-					if outcome == "ok" {
-						st.Count("graphs_skipped_known_crash_family."+lv.name, 1)
-					}
-					continue
-				}
-				if risky {
-					// expected to kill the process: flush everything first
-					flushCounters(st, cn)
-					fw.EmitPartial(st)
-					st = fw.NewStats()
-					cn = &counters{opsByKind: map[string]int64{}}
-				}
 				// every program is announced, so that a process death is
 				// attributed to the program that caused it
 				if !c.Risky(crashKey(g, outcome)) {
@@ -174,22 +189,42 @@ func verdictWord(f *finding) string {
 	return f.inv
 }
 
+func recordCrash(ci fw.CrashInfo, s *fw.Stats) {
+	// the worker died while executing the program named by ci.Key
+	var g Graph
+	outcome := "ok"
+	parts := strings.Split(ci.Key, "|")
+	if len(parts) == 3 {
+		outcome = parts[2]
+		g = parseGraph(parts[1])
+	}
+	head := ci.Stderr
+	if i := strings.Index(head, "\n"); i > 0 {
+		head = head[:i]
+	}
+	s.Violate(ci.Key, "process death while executing/freezing the module: "+head, Case{Graph: g, Outcome: outcome, Node: -1, Src: g.Program(outcome, "")})
+}
+
+func selfClosure() *Graph { return &Graph{Nodes: []Node{{Kind: kClosure, Kids: []int{0}}}} }
+
 func run(c *fw.Ctx) *fw.Stats {
-	st := c.Sharded(0, func(ci fw.CrashInfo, s *fw.Stats) {
-		// the worker died while executing the graph named by ci.Key
-		var g Graph
-		outcome := "ok"
-		parts := strings.Split(ci.Key, "|")
-		if len(parts) == 3 {
-			outcome = parts[2]
-			g = parseGraph(parts[1])
-		}
-		head := ci.Stderr
-		if i := strings.Index(head, "\n"); i > 0 {
-			head = head[:i]
-		}
-		s.Violate(ci.Key, "process death while executing/freezing the module: "+head, Case{Graph: g, Outcome: outcome, Node: -1, Src: g.Program(outcome, "")})
-	})
+	// probe pass: the smallest member of the Freeze-overflow family, alone
+	probeCrashed := false
+	probe := c.Sharded(1, func(ci fw.CrashInfo, s *fw.Stats) {
+		probeCrashed = true
+		recordCrash(ci, s)
+	}, "probe")
+	mode := "family=run"
+	if probeCrashed {
+		mode = "family=skip"
+	}
+	st := c.Sharded(0, recordCrash, mode)
+	st.Merge(probe)
+	if probeCrashed {
+		st.Notes = append(st.Notes, "freezing a closure that captures itself killed the probe worker: graphs whose only cycles consist of closures/defaults/tuples were not executed (counted under graphs_skipped_known_crash_family)")
+	} else {
+		st.Notes = append(st.Notes, "freezing a closure that captures itself terminates on this tree: the whole closure-cycle family was executed")
+	}
 	for _, lv := range levels(c.Tier) {
 		total := st.Counters["graphs_total."+lv.name] / 16
 		done := st.Counters["graphs_done."+lv.name]
@@ -198,7 +233,7 @@ func run(c *fw.Ctx) *fw.Stats {
 			st.Cut = append(st.Cut, fmt.Sprintf("%s: %d of %d graphs", lv.name, done, total))
 			continue
 		}
-		st.Levels = append(st.Levels, fmt.Sprintf("%s: %d rooted graphs up to isomorphism x {module succeeds, module fails} (%d graphs of the known Freeze-overflow family not executed)", lv.name, total, sk))
+		st.Levels = append(st.Levels, fmt.Sprintf("%s: %d rooted graphs up to isomorphism x {module succeeds, module fails} (%d graphs of the Freeze-overflow family not executed)", lv.name, total, sk))
 	}
 	return st
 }
